@@ -393,12 +393,36 @@ class Fold(ast.NodeTransformer):
             return None
         return ast.Tuple(elts=[vals[fl] for fl in fields], ctx=ast.Load())
 
+    def _module_names(self):
+        local_names = getattr(self, "_locals", None)
+        if local_names is None:
+            a__ = self.f.node.args
+            local_names = {p_.arg for p_ in a__.posonlyargs + a__.args + a__.kwonlyargs} | {x.id for x in ast.walk(self.f.node) if isinstance(x, ast.Name) and isinstance(x.ctx, ast.Store)}
+            self._locals = local_names
+        return local_names
+
     def visit_Starred(self, n):
         self.generic_visit(n)
         d = self._record_display(n.value)
         if d is not None:
             n.value = d
             self.changed = True
+        # *TABLE with TABLE a module-level tuple of string constants (or of names of module-level string constants): the display
+        if self.repo is not None and isinstance(n.value, ast.Name) and isinstance(n.ctx, ast.Load) and n.value.id not in self._module_names():
+            cv = self.repo.const_value(self.f.mod, n.value.id)
+            if isinstance(cv, ast.Tuple) and cv.elts and len(cv.elts) <= 12:
+                els = []
+                for x in cv.elts:
+                    if isinstance(x, ast.Name):
+                        x = self.repo.const_value(self.f.mod, x.id)
+                    if isinstance(x, ast.Constant) and isinstance(x.value, str):
+                        els.append(copy.deepcopy(x))
+                    else:
+                        els = None
+                        break
+                if els:
+                    n.value = ast.Tuple(elts=els, ctx=ast.Load())
+                    self.changed = True
         return n
 
     def visit_For(self, n):
@@ -1525,7 +1549,8 @@ def unroll_loops(repo, f, counter):
             if isinstance(st, ast.Try):
                 for h in st.handlers:
                     h.body = rewrite(h.body)
-            if isinstance(st, ast.For) and not st.orelse and not any(isinstance(x, (ast.Break, ast.Return)) for b in st.body for x in ast.walk(b)):
+            if isinstance(st, ast.For) and not st.orelse and not any(isinstance(x, ast.Break) for b in st.body for x in ast.walk(b)):
+                # (a `return` in the body leaves the function from the copy it is in, exactly as it leaves the loop)
                 rows = _rows(repo, f, st.iter)
                 if rows is None and isinstance(st.iter, (ast.List, ast.Tuple)) and 1 <= len(st.iter.elts) <= MAX_ROWS and isinstance(st.target, (ast.Tuple, ast.List)) \
                         and all(isinstance(t, ast.Name) for t in st.target.elts) \
